@@ -19,7 +19,7 @@ import re
 
 from .common import HARNESS_DIR
 
-KEYS = {"like", "props", "tier", "unwind", "unwindset", "timeout", "mem", "encodes", "vars",
+KEYS = {"like", "cbmc", "props", "tier", "unwind", "unwindset", "timeout", "mem", "encodes", "vars",
         "bounds", "outside", "clause", "stubs_note", "expect"}
 
 
@@ -37,6 +37,7 @@ class Harness:
         self.text = {k: meta.get(k, "").strip() for k in
                      ("encodes", "vars", "bounds", "outside", "clause", "stubs_note")}
         self.expect = meta.get("expect", "").strip()
+        self.cbmc_extra = meta.get("cbmc", "").split()
 
     @property
     def is_canary(self):
